@@ -160,6 +160,33 @@ def e2_cases(tier):
     return out
 
 
+def e2_requests(tier):
+    """Out-of-range / degenerate values REQUESTED through the real OV_ECTL_RATEMANAGE2_SET (the property quantifies over whatever
+    the control interface accepts).  Refused requests are counted; accepted ones are encoded and judged like any other case."""
+    out = []
+    q = (tier == 'quick')
+    HUGE = 1 << 40
+    base = [((8000, 1), 16, 25600, {'max': (6, 0), 'min': (0, 24), 'both': (10, 8), 'cbr': (8, 8)}),
+            ((44100, 2), 96, 102400, {'max': (48, 0), 'min': (0, 160), 'both': (64, 56), 'cbr': (64, 64)})]
+    for (rate, ch), tmpl, n, modes in base:
+        for mode in MODES:
+            mx, mn = modes[mode]
+            avg = {'max': (mx * 3) // 4, 'min': (mn * 3) // 2, 'both': (mx + mn) // 2, 'cbr': mx}[mode]
+            sigs = ('noise', 'sil') if q else ('noise', 'sil', 'alt')
+            reqs = [('bias', b, '0.25', b, 'd', 0) for b in ('-1', '-0.01', '1.01', '2', 'nan', 'inf', '-inf')]
+            reqs += [('reservoir', r, 'b' + r, '0.5', 'd', 0) for r in ('-1', '0', str(HUGE))]
+            reqs += [('damping', d, '0.25', '0.5', d, avg) for d in ('-1', '0', 'nan')]
+            if not q:
+                reqs += [('bias', b, 'd', b, 'd', 0) for b in ('-0.5', '1.5', '-1e300', '1e300')]
+                reqs += [('reservoir', r, 'b' + r, '0', 'd', 0) for r in ('1', '7', str(1 << 62))]
+                reqs += [('damping', d, '0.25', '0.5', d, avg) for d in ('inf', '-inf', '1e-300')]
+            for what, val, res, bias, damp, a in reqs:
+                for sig in sigs:
+                    out.append((dict(rate=rate, ch=ch, set='request', mode=mode, max=mx, min=mn, avg=a, res=res, bias=bias, sig=sig, req=what, val=val),
+                                f"e2req {rate} {ch} {tmpl} {mx} {mn} {a} {res} {bias} {sig} {n} {damp}"))
+    return out
+
+
 def kv(line):
     d = {}
     for m in re.finditer(r'(\w+)=("[^"]*"|\S+)', line):
@@ -179,8 +206,12 @@ def run(tier):
 
     # ------------------------------------------------------------------ E2 first (short), then E1
     parts = os.environ.get('C14_PARTS', 'e1,e2').split(',')    # debugging aid only; a partial run is reported as non-exhaustive
-    e2 = e2_cases(tier) if 'e2' in parts else []
-    r2 = vlib.run_cases(exe2, [c for _, c in e2], tag='c14e2')
+    e2a = e2_cases(tier) if 'e2' in parts else []
+    e2b = e2_requests(tier) if 'e2' in parts else []
+    e2 = e2a + e2b
+    # request cases get a short CPU watchdog: an accepted nonsense value (NaN / infinite fill level) may make the manager pad without end
+    r2 = vlib.run_cases(exe2, [c for _, c in e2a], ['--timeout', '60'], tag='c14e2') + vlib.run_cases(exe2, [c for _, c in e2b], ['--timeout', '8'], tag='c14rq')
+    reqstat = {}
     e2stat = dict(cases=0, packets=0, runs=0, trunc=0, pad=0, limited=0, hit0=0, hitfull=0, nonmono=0, short=0, long=0, worstp=-1e18, worstm=-1e18)
     e2samples = []
     broken = []
@@ -188,6 +219,22 @@ def run(tier):
     for (meta, line), r in zip(e2, r2):
         chk.cov['evaluations'] += 1
         r = r or 'NOOUTPUT'
+        if 'req' in meta:
+            rs = reqstat.setdefault(f"{meta['req']}={meta['val']}", dict(refused=0, accepted_ok=0, accepted_violating=0))
+            if r.startswith('refused'):
+                rs['refused'] += 1
+                continue
+            rs['accepted_ok' if r.startswith('ok') else 'accepted_violating'] += 1
+            if not r.startswith('ok') and not r.startswith('cfgerr'):
+                d = kv(r)
+                kind = d.get('kind') or ('executor_' + r.split()[0].lower())
+                # one key per named finding: a limit that is accepted but never installed is the same finding in every limit mode
+                key = f"e2:accepted_{meta['req']}_{meta['val']}:limit_not_installed" if kind.startswith('limit_not_installed') else f"e2:accepted_{meta['req']}_{meta['val']}:{kind}:{meta['mode']}"
+                chk.violation(key,
+                              f"OV_ECTL_RATEMANAGE2_SET accepted {meta['req']}={meta['val']} ({meta['mode']} limits, R={d.get('R')}) and the managed encode [{line}] then breaks the limit: {d.get('detail', r[:300])}"
+                              + (f"; run oracle against configured limits: {d.get('run_oracle')} {d.get('run_detail', '')}" if 'run_oracle' in d else ''),
+                              {'part': 'e2', 'case': line})
+                continue
         if r.startswith('ok'):
             d = kv(r)
             e2stat['cases'] += 1
@@ -286,7 +333,7 @@ def run(tier):
         'e1_fixpoints_total': fix_total, 'e1_cut': cut,
         'e1_truncating_transitions': tot['trunc'], 'e1_padding_transitions': tot['pad'], 'e1_transitions_to_reservoir_0': tot['hit0'], 'e1_transitions_to_reservoir_full': tot['hitfull'],
         'e1_choice_range': [minch, maxch], 'e1_families': fams, 'e1_table': table,
-        'e2': {k: (round(v, 1) if isinstance(v, float) else v) for k, v in e2stat.items()}, 'e2_wall_s': round(t_e2, 1), 'e2_enforced_rate_quantisation': quant,
+        'e2': {k: (round(v, 1) if isinstance(v, float) else v) for k, v in e2stat.items()}, 'e2_wall_s': round(t_e2, 1), 'e2_enforced_rate_quantisation': quant, 'e2_requests_through_ctl': reqstat,
         'samples': samples + e2samples,
         'rule': 'E1: per configuration (hard max / hard min / both / CBR, optionally average tracking; reservoir_bits; reservoir_bias; short:long ratio; byte-aligned or mid-byte blobs) '
                 'a BFS over the real bitrate_manager_state: state = (minmax_reservoir, avg_reservoir, avgfloat, E+, E-) deduplicated by hash, transition = real vorbis_bitrate_addblock + '
@@ -304,6 +351,7 @@ def run(tier):
         'is credited to the code (units*|q-rint(q)| added to the slack). Under the most literal reading of the property this drift is unbounded over an arbitrarily long stream; reported to the lead, not judged.',
         'E2: one unmatched short/long transition per run is allowed (max_rate*(bs1-bs0)/(4*rate) bits): the manager budgets a block by its own size while a packet\'s granule advance depends on its neighbour (DESIGN C14)',
         'E2: the first packet (granule advance 0 by convention) is treated as if preceded by a block of its own size; the eos packet, whose granule is clipped to the input length, is credited its nominal advance',
+        'E2 request cases: bias / damping / reservoir_bits values outside their documented range are offered to the real OV_ECTL_RATEMANAGE2_SET; a refusal is counted (e2_requests_through_ctl), an acceptance is encoded and judged against the configured reservoir like any in-range case',
         'configurations with min_rate > max_rate (accepted by vorbis_encode_setup_managed, rejected by OV_ECTL_RATEMANAGE2_SET) cannot satisfy both limits and are not judged',
         'over-padding / harsher-than-needed truncation is not judged unless it breaks a limit (the property bounds bits, not quality)',
     ]
@@ -318,6 +366,7 @@ def run(tier):
         chk.guard(cut['deadline'] > 0 or cut['cap_noavg'] > 0 or fix_noavg == n_noavg, f'E1: every configuration without average tracking that was not cut reached a fix-point ({fix_noavg}/{n_noavg})')
         chk.guard(fix_noavg >= (100 if tier == 'quick' else 250), f'E1: at least N configurations reached a fix-point ({fix_noavg})')
     if 'e2' in parts:
+        chk.guard(len(reqstat) >= 13 and sum(v['refused'] + v['accepted_ok'] + v['accepted_violating'] for v in reqstat.values()) >= 150, 'E2: out-of-range bias/damping/reservoir requests were offered to the control interface')
         chk.guard(e2stat['trunc'] > 0 and e2stat['pad'] > 0, 'E2: truncation and padding both happened in real encodes')
         chk.guard(e2stat['hit0'] > 0 and e2stat['hitfull'] > 0, 'E2: reservoir hit both 0 and full in real encodes')
         chk.guard(e2stat['short'] > 0 and e2stat['long'] > 0, 'E2: short and long blocks both occurred')
